@@ -183,6 +183,31 @@ func isValueWithVariable(in ast.IsNode) bool {
 	return ok && containsVariable(n.Value)
 }
 
+// containsIgnore reports whether v is a record or set with the ignore marker somewhere inside.
+func containsIgnore(v types.Value) bool {
+	switch t := v.(type) {
+	case types.Record:
+		for vv := range t.Values() {
+			if IsIgnore(vv) || containsIgnore(vv) {
+				return true
+			}
+		}
+	case types.Set:
+		for vv := range t.All() {
+			if IsIgnore(vv) || containsIgnore(vv) {
+				return true
+			}
+		}
+	}
+	return false
+}
+
+// isValueWithIgnore reports whether the node is a record or set value that contains the ignore marker.
+func isValueWithIgnore(in ast.IsNode) bool {
+	n, ok := in.(ast.NodeValue)
+	return ok && containsIgnore(n.Value)
+}
+
 // NOTE: nodes is modified in place, so be sure to send unique copy in
 func tryPartial(env Env, nodes []ast.IsNode,
 	mkEval func(values []types.Value) Evaler,
@@ -193,7 +218,8 @@ func tryPartial(env Env, nodes []ast.IsNode,
 
 // tryPartialOperands is tryPartial with a choice of how operands that contain a variable are treated.  Attribute
 // access and `has` only look inside their operand (lookInside) and can be evaluated over it.  Every other operator
-// consumes its operands whole, so an operand that contains a variable is as unknown as the variable itself.
+// consumes its operands whole, so an operand that contains a variable is as unknown as the variable itself, and an
+// operand that contains the ignore marker is ignored like the marker itself.
 //
 // NOTE: nodes is modified in place, so be sure to send unique copy in
 func tryPartialOperands(env Env, nodes []ast.IsNode, lookInside bool,
@@ -209,6 +235,9 @@ func tryPartialOperands(env Env, nodes []ast.IsNode, lookInside bool,
 			continue
 		} else if err != nil {
 			return nil, err
+		}
+		if !lookInside && isValueWithIgnore(n) {
+			return nil, errIgnore
 		}
 		if !lookInside && isValueWithVariable(n) {
 			ok = false
@@ -473,16 +502,16 @@ func partialIfThenElse(env Env, v ast.NodeTypeIfThenElse) (ast.IsNode, error) {
 		return partial(env, v.Else)
 	}
 	thenNode, thenErr := partial(env, v.Then)
-	if errors.Is(thenErr, errIgnore) {
-		return nil, thenErr
+	if errors.Is(thenErr, errIgnore) || isValueWithIgnore(thenNode) {
+		return nil, errIgnore
 	} else if errors.Is(thenErr, errVariable) || isValueWithVariable(thenNode) {
 		thenNode = v.Then
 	} else if thenErr != nil {
 		thenNode = extError(thenErr)
 	}
 	elseNode, elseErr := partial(env, v.Else)
-	if errors.Is(elseErr, errIgnore) {
-		return nil, elseErr
+	if errors.Is(elseErr, errIgnore) || isValueWithIgnore(elseNode) {
+		return nil, errIgnore
 	} else if errors.Is(elseErr, errVariable) || isValueWithVariable(elseNode) {
 		elseNode = v.Else
 	} else if elseErr != nil {
@@ -521,8 +550,8 @@ func partialIsIn(env Env, v ast.NodeTypeIsIn) (ast.IsNode, error) {
 		)
 	}
 	right, rightErr := partial(env, v.Entity)
-	if errors.Is(rightErr, errIgnore) {
-		return nil, rightErr
+	if errors.Is(rightErr, errIgnore) || isValueWithIgnore(right) {
+		return nil, errIgnore
 	} else if errors.Is(rightErr, errVariable) || isValueWithVariable(right) {
 		right = v.Entity
 	} else if rightErr != nil {
@@ -551,8 +580,8 @@ func partialAnd(env Env, v ast.NodeTypeAnd) (ast.IsNode, error) {
 		)
 	}
 	right, rightErr := partial(env, v.Right)
-	if errors.Is(rightErr, errIgnore) {
-		return nil, rightErr
+	if errors.Is(rightErr, errIgnore) || isValueWithIgnore(right) {
+		return nil, errIgnore
 	} else if errors.Is(rightErr, errVariable) || isValueWithVariable(right) {
 		right = v.Right
 	} else if rightErr != nil {
@@ -581,8 +610,8 @@ func partialOr(env Env, v ast.NodeTypeOr) (ast.IsNode, error) {
 		)
 	}
 	right, rightErr := partial(env, v.Right)
-	if errors.Is(rightErr, errIgnore) {
-		return nil, rightErr
+	if errors.Is(rightErr, errIgnore) || isValueWithIgnore(right) {
+		return nil, errIgnore
 	} else if errors.Is(rightErr, errVariable) || isValueWithVariable(right) {
 		right = v.Right
 	} else if rightErr != nil {
